@@ -453,3 +453,5 @@ func propC04() Prop[C04Case] {
 func TestC04(t *testing.T) { Run(t, propC04()) }
 
 func FuzzGenC04(f *testing.F) { RunFuzz(f, propC04()) }
+
+func TestRaceC04(t *testing.T) { RunConcurrent(t, propC04(), 4) }
